@@ -17,15 +17,16 @@ import (
 const repoModule = "github.com/awslabs/ar-go-tools"
 
 type Program struct {
-	SSA     *ssa.Program
-	Pkgs    []*packages.Package
-	byPath  map[string]*ssa.Package
-	sizes   types.Sizes
-	mu      sync.Mutex
-	built   map[*ssa.Package]bool
-	implMu  sync.Mutex
-	implMem map[[2]types.Type]bool
-	Overlay map[string]string // virtual path -> real path
+	SSA       *ssa.Program
+	Pkgs      []*packages.Package
+	byPath    map[string]*ssa.Package
+	sizes     types.Sizes
+	mu        sync.Mutex
+	built     map[*ssa.Package]bool
+	builtFast sync.Map
+	implMu    sync.Mutex
+	implMem   map[[2]types.Type]bool
+	Overlay   map[string]string // virtual path -> real path
 }
 
 // harnessOverlay builds the overlay for the given repo-relative package dirs: every file of
@@ -135,6 +136,10 @@ func (p *Program) ensureBuilt(pkg *ssa.Package) {
 	if pkg == nil {
 		return
 	}
+	if _, ok := p.builtFast.Load(pkg); ok {
+		return
+	}
+	defer p.builtFast.Store(pkg, true)
 	p.mu.Lock()
 	defer p.mu.Unlock()
 	if p.built[pkg] {
